@@ -2483,7 +2483,9 @@ class Model:
 
                 source_popsize = par.source_popsize(ti)
                 if source_popsize:
-                    converted_frac = converted_amt / source_popsize
+                    # If the source compartments are almost empty (e.g. 1e-320 people left after being emptied in previous timesteps) the fraction can overflow
+                    # to infinity, which would turn into NaN when the outflows are rescaled. Any fraction above 1 gets rescaled anyway, so cap it at a large finite value
+                    converted_frac = min(converted_amt / source_popsize, 1e100)
                 else:
                     converted_frac = 0.0
 
